@@ -223,6 +223,11 @@ func (m *recoveryMessage) DecodeBinary(r *gob.Decoder) error {
 	if m.preparationPayloads == nil {
 		m.preparationPayloads = []preparationCompact{}
 	}
+	for i := range aux.PreCommitPayloads {
+		if len(aux.PreCommitPayloads[i].Data) != preCommitDataSize {
+			return errors.New("wrong PreCommit data length")
+		}
+	}
 	m.preCommitPayloads = aux.PreCommitPayloads
 	m.commitPayloads = aux.CommitPayloads
 	if m.commitPayloads == nil {
